@@ -89,6 +89,7 @@ type vector struct {
 	Pre string `json:"pre"`
 	FB  int    `json:"fb"`
 	FM  int    `json:"fm"`
+	W   int    `json:"w"`
 }
 
 type failure struct {
@@ -120,6 +121,10 @@ type summary struct {
 	FullSweeps     map[string]int `json:"full_16bit_sweeps"`
 	ConcHeaders    int            `json:"concurrent_headers"`
 	ConcFrames     int            `json:"concurrent_frames"`
+	LongVectors    int            `json:"long_tlc_vectors"`
+	LongInputs     int            `json:"long_inputs"`
+	LongSplits     int            `json:"long_split_checks"`
+	LongWrapping   int            `json:"long_inputs_with_accumulator_overflow"`
 	HdrSweep       int            `json:"hdr_field_sweep"`
 	EchoSweep      int            `json:"echo_payload_sweep"`
 	Frames         int            `json:"frames_verified"`
@@ -170,6 +175,59 @@ func fail(key, what string, c map[string]interface{}) {
 }
 
 func hx(b []byte) string { return hex.EncodeToString(b) }
+
+// tlcCarrier4 is CarByte(4, i) of CksumVec.tla (1-based i).
+func tlcCarrier4(n int) []byte {
+	b := make([]byte, n)
+	for i := 1; i <= n; i++ {
+		b[i-1] = byte((i*37 + 11 + (i/7)*101) % 256)
+	}
+	return b
+}
+
+// accWraps: how often a uint32 accumulator adding the little-endian 16-bit words of b overflows (observation used to
+// name a Checksum mismatch on very long inputs: Cksum.tla Acc32 / KF_AccumulatorWrap).
+func accWraps(b []byte) int {
+	var s uint64
+	for i := 0; i+1 < len(b); i += 2 {
+		s += uint64(b[i+1])<<8 | uint64(b[i])
+	}
+	if len(b)%2 == 1 {
+		s += uint64(b[len(b)-1])
+	}
+	return int(s >> 32)
+}
+
+func cksumKey(b []byte) string {
+	if accWraps(b) > 0 {
+		return "C15:KF_AccumulatorWrap:Checksum"
+	}
+	return "C15:Checksum"
+}
+
+// longCase describes a long input compactly for replay: generator parameters instead of the bytes.
+func longBytes(n int, pat string, seed int64) []byte {
+	b := make([]byte, n)
+	switch pat {
+	case "ff":
+		for i := range b {
+			b[i] = 0xff
+		}
+	case "alt":
+		for i := range b {
+			if i%2 == 1 {
+				b[i] = 0xff
+			}
+		}
+	case "inc":
+		for i := range b {
+			b[i] = byte(i*37 + i/251)
+		}
+	default:
+		rand.New(rand.NewSource(seed)).Read(b)
+	}
+	return b
+}
 
 // ---------------------------------------------------------------------------------------------
 // the single operations, used by the stages and by -case
@@ -538,8 +596,17 @@ func stage12(path string, x *sess) error {
 		sum.LibChecks++
 		sum.LibByOp["Checksum"]++
 		if got != e {
-			fail("C15:Checksum", fmt.Sprintf("Checksum stores %x, RFC 1071 gives %x (len %d)", got, e, len(b)),
-				map[string]interface{}{"op": "Checksum", "b": hx(b), "e": hx(e[:])})
+			c := map[string]interface{}{"op": "Checksum", "b": hx(b), "e": hx(e[:])}
+			if v.K == "long" {
+				c = map[string]interface{}{"op": "long", "n": len(b), "pat": "tlc", "e": hx(e[:])}
+			}
+			fail(cksumKey(b), fmt.Sprintf("Checksum stores %x, RFC 1071 gives %x (len %d, uint32 accumulator overflows %d times)", got, e, len(b), accWraps(b)), c)
+		} else if v.W > 0 && len(sum.Drift) < 10 {
+			sum.Drift = append(sum.Drift, fmt.Sprintf("long vector of %d bytes: Cksum.tla Acc32 predicts %d accumulator overflows and a wrong result, the library is right", len(b), v.W))
+		}
+		if v.K == "long" {
+			sum.LongVectors++
+			continue
 		}
 		if len(b) >= 4 {
 			g, w, ver := opSetChecksum(b)
@@ -759,6 +826,55 @@ func stage3(rng *rand.Rand, thorough bool) {
 						map[string]interface{}{"op": "split", "b": hx(s), "k": k})
 				}
 			}
+		}
+	}
+}
+
+// stageLong: byte strings longer than a datagram, judged by the validated transcription ("for every byte string").
+func longOne(n int, pat string, seed int64) {
+	b := longBytes(n, pat, seed)
+	sum.LongInputs++
+	if accWraps(b) > 0 {
+		sum.LongWrapping++
+	}
+	note(b[:64])
+	got, want := opChecksum(b)
+	c := map[string]interface{}{"op": "long", "n": n, "pat": pat, "seed": seed}
+	if got != want {
+		fail(cksumKey(b), fmt.Sprintf("Checksum stores %x, RFC 1071 gives %x (len %d, %s content, uint32 accumulator overflows %d times)", got, want, n, pat, accWraps(b)), c)
+		return
+	}
+	// split independence across odd and even boundaries, on the library's own results (no overflow in any part)
+	if accWraps(b) == 0 {
+		be := func(x [2]byte) uint16 { return ^(uint16(x[0])<<8 | uint16(x[1])) }
+		for _, k := range []int{1, 65535, 65536, n / 2, n/2 + 1, n - 1} {
+			if k <= 0 || k >= n {
+				continue
+			}
+			whole, p, q := be(libStored(b)), be(libStored(b[:k])), be(libStored(b[k:]))
+			if k%2 == 1 {
+				q = swap16(q)
+			}
+			sum.LongSplits++
+			if add1c(p, q) != whole {
+				c["k"] = k
+				fail("C15:Checksum:split", fmt.Sprintf("library sum of %d bytes differs from the combination of its parts split at %d", n, k), c)
+				return
+			}
+		}
+	}
+}
+
+func stageLong(seed int64, thorough bool) {
+	lens := []int{65534, 65535, 65536, 65537, 131070, 131072, 200001}
+	pats := []string{"rand", "ff", "alt"}
+	if thorough {
+		lens = append(lens, 65533, 65538, 98303, 131071, 131073, 131074, 131075, 131076, 131078, 196607, 262144, 524289, 1048576)
+		pats = append(pats, "inc", "rand")
+	}
+	for _, n := range lens {
+		for i, p := range pats {
+			longOne(n, p, seed*1000+int64(n)+int64(i))
 		}
 	}
 }
@@ -1201,6 +1317,32 @@ func runCase(js string) int {
 		}
 		res["reproduced"] = got != want
 		res["what"] = fmt.Sprintf("got %x want %x", got, want)
+	case "long":
+		if str("pat") == "tlc" {
+			// a TLC vector: its bytes are the carriers of CksumVec.tla (all 0xff or PatBytes carrier 4)
+			n := num("n")
+			want := unhex("e")
+			for _, cand := range [][]byte{longBytes(n, "ff", 0), tlcCarrier4(n)} {
+				if r := refStored(cand); len(want) == 2 && r == [2]byte{want[0], want[1]} {
+					got, _ := opChecksum(cand)
+					res["reproduced"] = got != r
+					res["what"] = fmt.Sprintf("got %x want %x", got, r)
+				}
+			}
+			break
+		}
+		lb := longBytes(num("n"), str("pat"), int64(num("seed")))
+		got, want := opChecksum(lb)
+		res["reproduced"] = got != want
+		res["what"] = fmt.Sprintf("got %x want %x (len %d)", got, want, len(lb))
+		if k := num("k"); k > 0 && got == want {
+			be := func(x [2]byte) uint16 { return ^(uint16(x[0])<<8 | uint16(x[1])) }
+			whole, p, q := be(libStored(lb)), be(libStored(lb[:k])), be(libStored(lb[k:]))
+			if k%2 == 1 {
+				q = swap16(q)
+			}
+			res["reproduced"] = add1c(p, q) != whole
+		}
 	case "Calc":
 		got, want := opCalc(b)
 		res["reproduced"] = got != want
@@ -1388,6 +1530,7 @@ func main() {
 		x.close()
 		stage3(rng, thorough)
 		stage3b(rng, thorough)
+		stageLong(seed, thorough)
 	} else {
 		x.close()
 	}
